@@ -139,16 +139,16 @@ def sha(b):
         return "unwritable " + type(e).__name__
 
 
-def run_sequence(chk, kind, rng, idx):
+def run_sequence(chk, kind, rng, idx, script=None):
     ad = Adapter(kind, rng)
-    nh = rng.choice([2, 3])
+    nh = rng.choice([2, 3]) if script is None else 3
     blocks, caller_lists = {}, {}
     mops, log, obs = [], [], []
     templates = {}
     can_assign = kind in ("D3", "FT")
     can_given = kind in ("PC", "OS")
     pending_list = None
-    for step in range(rng.randrange(3, 9)):
+    for step in range(rng.randrange(3, 9) if script is None else len(script)):
         live = sorted(blocks)
         free = [h for h in range(1, nh + 1) if h not in blocks]
         choices = []
@@ -156,7 +156,11 @@ def run_sequence(chk, kind, rng, idx):
             choices += ["new", "new", "decode", "decode"] + (["new_given"] if can_given else [])
         if live:
             choices += ["add", "add", "remove", "edit", "edit", "encode"] + (["assign"] if can_assign and len(live) >= 2 else [])
-        op = rng.choice(choices)
+        sc = script[step] if script is not None else None
+        op = rng.choice(choices) if sc is None else sc[0]
+        if sc is not None and ((op in ("new", "decode", "new_given") and not free) or (op == "assign" and not can_assign)
+                               or (op == "new_given" and not can_given)):
+            continue
         before = {h: ([id(x) for x in ad.items(b)], sha(b)) for h, b in blocks.items()}
         target, edited = None, None
         if op == "new":
@@ -179,32 +183,38 @@ def run_sequence(chk, kind, rng, idx):
             obs.append(None)
         elif op == "decode":
             h = free[0]
-            k = rng.randrange(0, 3)
+            k = rng.choice([0, 1, 2, 2]) if sc is None else sc[1]
             if k not in templates:
                 templates[k] = ad.template(k)
             blocks[h] = ad.decode(*templates[k])
             mops.append([3, h, k])
             target = h
         elif op == "add":
-            h = rng.choice(live)
+            h = rng.choice(live) if sc is None else sc[1]
+            if h not in blocks:
+                continue
             ad.add(blocks[h])
             mops.append([4, h])
             target = h
         elif op == "remove":
-            h = rng.choice(live)
-            n = len(ad.items(blocks[h]))
-            if n == 0:
+            h = rng.choice(live) if sc is None else sc[1]
+            if h not in blocks:
                 continue
-            i = rng.randrange(n)
+            n = len(ad.items(blocks[h]))
+            if n == 0 or (sc is not None and sc[2] >= n):
+                continue
+            i = rng.randrange(n) if sc is None else sc[2]
             ad.remove(blocks[h], i)
             mops.append([5, h, i])
             target = h
         elif op == "edit":
-            h = rng.choice(live)
-            its = ad.items(blocks[h])
-            if not its:
+            h = rng.choice(live) if sc is None else sc[1]
+            if h not in blocks:
                 continue
-            i = rng.randrange(len(its))
+            its = ad.items(blocks[h])
+            if not its or (sc is not None and sc[2] >= len(its)):
+                continue
+            i = rng.randrange(len(its)) if sc is None else sc[2]
             if kind == "EV" and len(its[i].values) == 0:
                 continue
             edited = its[i]
@@ -216,12 +226,16 @@ def run_sequence(chk, kind, rng, idx):
             mops.append([6, h, i])
             target = h
         elif op == "assign":
-            h, h2 = rng.sample(live, 2)
+            if len(live) < 2:
+                continue
+            h, h2 = rng.sample(live, 2) if sc is None else (sc[1], sc[2])
             blocks[h].tracks = blocks[h2].tracks
             mops.append([7, h, h2])
             target = h
         else:
-            h = rng.choice(live)
+            h = rng.choice(live) if sc is None else sc[1]
+            if h not in blocks:
+                continue
             sha(blocks[h])
             mops.append([8, h])
             target = h
@@ -320,9 +334,20 @@ def run(chk):
                 "encode; after EVERY operation: identity of every instance's items and the sha of its encoding; oracle: only the "
                 "target instance changes (an edited object the caller himself placed in two blocks excepted), a block built "
                 "without items is empty; non-trivial = >= 2 instances exist at some point")
-    for i in range(n):
-        kind = KINDS[i % len(KINDS)]
-        r = run_sequence(chk, kind, rng, i)
+    scripts = []
+    creates = [("new",), ("decode", 0), ("decode", 1), ("decode", 2), ("new_given",)]
+    edits = [("add", 1), ("add", 2), ("remove", 1, 0), ("remove", 2, 1), ("edit", 1, 0), ("edit", 1, 1), ("edit", 2, 0),
+             ("edit", 2, 1), ("assign", 1, 2), ("assign", 2, 1)]
+    for kind in KINDS:
+        for c1 in creates:
+            for c2 in creates:
+                for e1 in edits:
+                    for e2 in ((("encode", 1),) if chk.tier == "quick" else edits):
+                        scripts.append((kind, [c1, c2, ("add", 2) if c2[0] in ("new", "new_given") else ("encode", 2), e1, e2, ("new",)]))
+    chk.extra["systematic_interleavings"] = len(scripts)
+    todo = [(k, sc) for k, sc in scripts] + [(KINDS[i % len(KINDS)], None) for i in range(n)]
+    for i, (kind, script) in enumerate(todo):
+        r = run_sequence(chk, kind, rng, i, script)
         chk.note_case((kind, i, tuple(r.get("log", []))), len(r.get("log", [])) >= 2)
         chk.count(kind)
         for l in r.get("log", []):
